@@ -105,7 +105,8 @@ def c04(rep, tier):
     # ---------------------------------------------------------------- e
     E = rep.rule('C04.e', 'static rules are present and blocking: unknown program, argument count, unknown mark, literal range', floor=4)
     m = GenModel(gf)
-    dv = m.fn('dispatchValue')
+    dv = m.fn_with_helpers('dispatchValue', lambda fx: any(m.is_factory(x, 'PrepareExec') for x in walk_all_exprs(fx['body']) if x.get('k') == 'call'),
+                           exclude=('dispatchCallArgs', 'strToInt', 'strToIntSilent'))
     gv = m.cfg(dv)
     emits_call = [ev for ev in gv.calls() if m.is_factory(ev.e, 'PrepareExec') or m.is_factory(ev.e, 'Exec') or m.is_factory(ev.e, 'Arg')]
 
